@@ -428,6 +428,15 @@ def run(tier, seed, which="C11"):
                       "every history of %d steps over {register/heartbeat at t, time_check at t, take-over of the service after a cluster change} with t on the grid " + str(GRID) + ", health time-out %d, instance time-out %d; instance flags symbolic" % (H_TIMEOUT, O_TIMEOUT),
                       ["beating instance survives a tick", "silent instance marked unhealthy", "silent unhealthy instance removed", "takeover of a service",
                        "tick over an instance taken over from another node"]))
+    extra_c13 = None
+    if which == "C13":
+        from . import c13actor
+        extra_c13 = c13actor.run(tier, seed)
+        if extra_c13.get("verdict") == "violation":
+            from lib import native as _n
+            pth = _n.write_replay("C13", "c13", "model", [], {"engine": "smt", "mode": "model-only", "obligation": extra_c13["harness"], "message": extra_c13["message"], "model": extra_c13.get("counterexample")})
+            extra_c13["replay_path"] = pth
+            extra_c13["replay"] = {"path": pth, "outcome": "model-only", "message": "history of heartbeats and timer ticks for the NamingActor (the native clock cannot be set)"}
     for name, mode, n, bound, need in plans:
         stats = {"paths": 0, "queries": 0, "seed": seed, "n_validate": 12 if tier == "quick" else 40}
         ob = {"engine": "smt", "harness": name, "encodes": enc, "encodes_files": FILES, "bound": bound % n if "%d" in bound else bound, "queries": 0, "solver_s": 0.0, "distinct": 0}
@@ -500,6 +509,8 @@ def run(tier, seed, which="C11"):
     for ob in obligations:
         ob.pop("_ops", None)
         ob.pop("_validate", None)
+    if extra_c13 is not None:
+        obligations.append(extra_c13)
     info["wall_s"] = round(time.time() - t0, 1)
     return {"obligations": obligations, "info": info}
 
